@@ -18,6 +18,7 @@ type Storer struct {
 
 	OneTime         bool     // hand out the TOTP replay-protecting user type
 	ProfileKeys     []string // the application's declared profile fields
+	PersistAll      bool     // PutArbitrary stores everything it is handed
 	OAuth2Confirmed bool     // new OAuth2 users are created confirmed (as authboss-sample does)
 
 	w *World
@@ -256,6 +257,7 @@ func (s *Storer) Load(ctx context.Context, key string) (authboss.User, error) {
 
 func (s *Storer) prep(u *User) *User {
 	u.profileKeys = s.ProfileKeys
+	u.persistAll = s.PersistAll
 	if s.w != nil {
 		u.onArbitrary = s.w.noteArbitrary
 	}
